@@ -97,8 +97,20 @@ def twin_run(kind_name, ops, seed, scratch):
     for i, op in enumerate(ops):
         try:
             if op[0] == "ask":
-                a = ds.ask(op[1], tell_pending=op[2])
-                b = plain.ask(op[1], tell_pending=op[2])
+                # the same request on both twins: an exception is C18's business only when the twins do not fail alike
+                ea = eb = None
+                try:
+                    a = ds.ask(op[1], tell_pending=op[2])
+                except Exception as e:  # noqa: BLE001
+                    ea = e
+                try:
+                    b = plain.ask(op[1], tell_pending=op[2])
+                except Exception as e:  # noqa: BLE001
+                    eb = e
+                if ea is not None or eb is not None:
+                    if type(ea) is not type(eb):
+                        return ("wrapper_exception_mismatch", f"op {i} ask({op[1]},{op[2]}): wrapped {ea!r}, plain {eb!r}")
+                    return None  # both refuse alike (e.g. AverageLearner1D.ask(0) divides by the request size); stop this history
                 if L.canon(a) != L.canon(b):
                     return ("suggestions", f"op {i} ask({op[1]},{op[2]}): wrapped {a} vs plain {b}")
                 if op[2]:
